@@ -3,3 +3,47 @@ From KB Require Import Base.Bytes Model.Etcd Gen.Consts.
 Theorem C16_consts_agree : (go_backend_tombStoneBytes, Z.of_N go_etcd_GetPartitionMagic) = (Etcd.tombstone, Etcd.partition_magic).
 Proof. reflexivity. Qed.
 Print Assumptions C16_consts_agree.
+
+(* ---- C16Backlog: the batch-size arithmetic of Backend.catchUpEvents, extracted from pkg/backend/watch.go by
+   harness/cmd/gen_c16expr (coq/Gen/C16Expr.v), is the one of the watch model (WatchSys.catchup_batch_size), whose bound
+   "a backlog fits into the result channel" is C05_catchup_fits.  The 30051-event backlog case of the C16 driver exercises
+   it at the real constants; this obligation breaks on any edit of the divisor or of the threshold. *)
+From Coq Require Import String Ascii.
+From KB Require Import Model.GoExpr Model.WatchSys Gen.C16Expr.
+
+Fixpoint bytes_of_string (s : string) : bytes :=
+  match s with
+  | EmptyString => []
+  | String a s' => N_of_ascii a :: bytes_of_string s'
+  end.
+
+Definition go_env (pa : params) (n : bytes) : option Z :=
+  if beqb n (bytes_of_string "resultChanLength") then Some (Z.of_N (p_out pa))
+  else if beqb n (bytes_of_string "eventBatchSize") then Some (Z.of_N (p_batch pa))
+  else None.
+
+Lemma go_env_out pa : go_env pa [114; 101; 115; 117; 108; 116; 67; 104; 97; 110; 76; 101; 110; 103; 116; 104]%N = Some (Z.of_N (p_out pa)).
+Proof. reflexivity. Qed.
+Lemma go_env_batch pa : go_env pa [101; 118; 101; 110; 116; 66; 97; 116; 99; 104; 83; 105; 122; 101]%N = Some (Z.of_N (p_batch pa)).
+Proof. reflexivity. Qed.
+
+Theorem C16_catchup_arithmetic_agrees : forall pa len, (1 <= p_out pa)%N ->
+  gcatchup_eval (go_env pa) (Z.of_N len) go_catchup_batch_size = option_map Z.of_N (catchup_batch_size pa len).
+Proof.
+  intros pa len Hout. unfold go_catchup_batch_size, gcatchup_eval, gcond_eval, catchup_batch_size.
+  cbn [g_extra g_cond g_then g_init geval]. rewrite !go_env_out, !go_env_batch.
+  rewrite <- N2Z.inj_mul.
+  assert (E : (Z.of_N len >? Z.of_N (p_out pa * p_batch pa))%Z = (p_out pa * p_batch pa <? len)%N).
+  { rewrite Z.gtb_ltb. destruct (N.ltb_spec (p_out pa * p_batch pa) len), (Z.ltb_spec (Z.of_N (p_out pa * p_batch pa)) (Z.of_N len)); try reflexivity; lia. }
+  rewrite E. destruct (p_out pa * p_batch pa <? len)%N; [|reflexivity].
+  assert (E2 : ((Z.of_N (p_out pa) - 1 =? 0)%Z) = (p_out pa - 1 =? 0)%N).
+  { destruct (Z.eqb_spec (Z.of_N (p_out pa) - 1) 0), (N.eqb_spec (p_out pa - 1) 0); try reflexivity; lia. }
+  rewrite E2. destruct (N.eqb_spec (p_out pa - 1) 0); [reflexivity|].
+  cbn [option_map]. f_equal. rewrite Z.quot_div_nonneg by lia.
+  replace (Z.of_N (p_out pa) - 1)%Z with (Z.of_N (p_out pa - 1)) by lia. rewrite <- N2Z.inj_div. reflexivity.
+Qed.
+Print Assumptions C16_catchup_arithmetic_agrees.
+
+(* non-vacuity at the real constants: the 30051-event backlog of the driver is cut into batches of 303 *)
+Example C16_catchup_real : gcatchup_eval (go_env real_params) 30051 go_catchup_batch_size = Some 303%Z.
+Proof. vm_compute. reflexivity. Qed.
